@@ -188,6 +188,19 @@ def loads(vk, cfg):
             vk.ensures_eq("apply_on=1/block of the loaded field==values(*2 pi R)", rr[npts:].reshape(npts, 2), spec)
             if vk.sym:
                 vk.canary("apply_on=1/load lands in the first field", rr[npts:], 0 * rr[npts:])
+            # a ramped load goes through update() in every substep: still the load on the SAME field, with the new values
+            vals2 = vk.reals("load2", (2, 2), near=2.0)
+            vk.real(fem.PointLoad.update)
+            it.update(vals2)
+            rr2 = np.asarray(dense(vk, lambda: it.assemble.vector(fc2))).reshape(-1)
+            spec2 = 0 * spec
+            for k, p_ in enumerate(pts):
+                w = 2 * (ring.PI() if vk.sym else np.pi) * rg.mesh.points[p_, 1] if axi else 1
+                spec2[p_] = vals2[k] * w
+            vk.ensures_eq("apply_on=1/after-update/block of the first field is zero", rr2[:npts], 0 * rr2[:npts])
+            vk.ensures_eq("apply_on=1/after-update/block of the loaded field==new values(*2 pi R)", rr2[npts:].reshape(npts, 2), spec2)
+            if vk.sym:
+                vk.ensures_true("apply_on=1/after-update/the item keeps its options (apply_on, axisymmetric, points)", it.apply_on == 1 and bool(it.axisymmetric) == bool(axi) and list(it.points) == pts, f"apply_on={it.apply_on} axisymmetric={it.axisymmetric} points={list(it.points)}", backend="exec")
             return
         it = fem.PointLoad(fc, points=pts, values=vals, axisymmetric=axi)
         vk.real(fem.PointLoad._vector)
